@@ -1,5 +1,76 @@
-(* C11 - statements are being added as Proofs/ExecFacts.v grows *)
-From Coq Require Import List.
-From JugV Require Import Model.Deps Model.Exec Model.ExecCase.
-Theorem C11_placeholder : True. Proof. exact I. Qed.
-Print Assumptions C11_placeholder.
+(* C11 - a failing task stores nothing, blocks only its dependents, and is accounted for.
+   Statements only; every proof is [exact <lemma>].  Vocabulary: see Props/C02.v and C01.v. *)
+From Coq Require Import List Bool PArith Arith.
+From JugV Require Import Model.MapReduce Model.Slice Model.Deps Model.Exec Model.ExecCase Model.ExecExample
+  Proofs.ExecFacts Proofs.ExecProgFacts Proofs.ExecTheorems.
+Import ListNotations.
+
+(* (a)+(b) after a task function raised: no result is ever stored for that task, nor for any task
+   depending on it however indirectly, and the function of a dependent is never started - by any
+   worker, in any continuation, later executes included *)
+Theorem C11_failure_stores_nothing_and_blocks_dependents : forall (V : Type) (C : cfg V), framed C ->
+  forall r0 tr s w t s1 tr' s', reach C r0 tr s ->
+    step C s (ERaise w t) = Some s1 -> run C s1 tr' = Some s' ->
+    results s' t = None /\
+    (forall x, doomed C (results s1) x -> results s' x = None) /\
+    (forall x d w', In d (c_deps C x) -> doomed C (results s1) d -> step C s' (EStart w' x) = None).
+Proof. exact (@failure_stores_nothing_and_blocks_dependents). Qed.
+Print Assumptions C11_failure_stores_nothing_and_blocks_dependents.
+
+(* (c) with --keep-going (a raise is an admissible event only then), once every worker has left,
+   every task that does not depend on a failed one has its result *)
+Theorem C11_keep_going_completes_the_rest : forall (V : Type) (C : cfg V), framed C ->
+  forall rank, ranked C rank -> closed C ->
+  forall r0 tr s, reach C r0 tr s -> forallb (okev C) tr = true ->
+  quiescent all_workers s -> (exists w c, w_pc (ws s w) = PDone c) ->
+  forall t, In t (c_tasks C) -> (results s t <> None <-> ~ doomed C (results s) t).
+Proof. exact (@complete_at_quiescence). Qed.
+Print Assumptions C11_keep_going_completes_the_rest.
+
+(* (d) the exit status of a worker that was not asked to stop is non-zero iff it saw a failure ... *)
+Theorem C11_exit_status : forall (V : Type) (C : cfg V) (s s' : st V) w code,
+  step C s (EExit w code) = Some s' -> w_intr (ws s w) = false -> (code = 0 <-> w_failed (ws s w) = false).
+Proof. exact (@exit_code_reports_failure). Qed.
+Print Assumptions C11_exit_status.
+
+(* ... and "saw a failure" means exactly that a task function raised in this worker *)
+Theorem C11_failure_flag : forall (V : Type) (C : cfg V) tr (s s' : st V) w, run C s tr = Some s' ->
+  w_failed (ws s' w) = w_failed (ws s w) || existsb (raises_in w) tr.
+Proof. exact (@failed_iff_raised). Qed.
+Print Assumptions C11_failure_flag.
+
+(* (e) the lock of the task that raised: released (a later run retries it) unless --keep-failed,
+   in which case it is left marked failed ... *)
+Theorem C11_lock_after_failure : forall (V : Type) (C : cfg V) (s s' : st V) w t e,
+  w_pc (ws s w) = PRaised t -> step C s e = Some s' ->
+    w_pc (ws s' w) = PRaised t \/ w_pc (ws s' w) = PDead \/
+    (e = EUnlock w t /\ c_keep_failed C = false /\ locks s' t = LFree) \/
+    (e = EFailMark w t /\ c_keep_failed C = true /\ locks s' t = LFailed).
+Proof. exact (@raised_lock). Qed.
+Print Assumptions C11_lock_after_failure.
+
+(* ... and a lock marked failed stays failed and cannot be acquired by anybody until failed locks
+   are cleaned up *)
+Theorem C11_failed_lock_is_sticky : forall (V : Type) (C : cfg V)
+  (s s' : st V) e t, Inv C s -> locks s t = LFailed -> step C s e = Some s' ->
+    locks s' t = LFailed \/ e = EReleaseFailed \/ e = ERemoveLocks.
+Proof. exact (@failed_sticky). Qed.
+Print Assumptions C11_failed_lock_is_sticky.
+
+Theorem C11_failed_lock_not_acquired : forall (V : Type) (C : cfg V) (s : st V) w t,
+  locks s t = LFailed -> step C s (ELock w t true) = None.
+Proof. exact (@failed_not_acquired). Qed.
+Print Assumptions C11_failed_lock_not_acquired.
+
+(* non-vacuity: f2 raises under --keep-going.  Without --keep-failed worker 0 retries it after worker 1
+   (both exit 1, lock free); with --keep-failed worker 0 finds the lock failed (exits 0).  Either way
+   t1 is stored, t2 and its dependent t3 are not, and f3 was never called *)
+Example C11_nonvacuous :
+  (exists s, run (prog_cfg (ex_prog_fail false)) (init (st_of [])) (ex_trace_fail false) = Some s /\
+             forallb (okev (prog_cfg (ex_prog_fail false))) (ex_trace_fail false) = true /\
+             map (results s) [1; 2; 3]%positive = [Some ex_v1; None; None] /\ execs s 3%positive = 0 /\
+             locks s 2%positive = LFree /\ w_pc (ws s 0) = PDone 1 /\ w_pc (ws s 1) = PDone 1) /\
+  (exists s, run (prog_cfg (ex_prog_fail true)) (init (st_of [])) (ex_trace_fail true) = Some s /\
+             map (results s) [1; 2; 3]%positive = [Some ex_v1; None; None] /\ execs s 2%positive = 1 /\
+             locks s 2%positive = LFailed /\ w_pc (ws s 0) = PDone 0 /\ w_pc (ws s 1) = PDone 1).
+Proof. split; eexists; vm_compute; repeat split; reflexivity. Qed.
